@@ -912,6 +912,26 @@ def run_forward(pid, tier, t0):
                   "a shape the model calls valid that does not compile is a tool error (exit 2)"], t0, divs)
 
 
+def run_fallback_shapes(pid, tier, t0):
+    """C07 over the receiver kinds of the generated impl: tla/Shapes.tla FallbackExpected on generated traits."""
+    import gen, gen_c07
+    inst = {"module": "MC_Fallback", "spec": "Spec", "constants": {"EmitOn": True}, "invariants": ["NoFabricationShape", "Emit"]}
+    r, cases = gen.tlc_cases(inst, "fallback_" + pid.lower())
+    main_rs, exp = gen_c07.render(cases)
+    gen.write_crate("gen_c07", main_rs)
+    obs, info = gen.build_and_run("gen_c07", timeout=3000)
+    if obs is None:
+        log(str(info)[-2000:])
+        raise ToolError("generated fall-back program does not build/run against the tree")
+    d = gen_c07.compare(exp, obs)
+    divs = [{"what": x["what"], "step": 0, "expected": x["expected"], "observed": x["observed"], "beh": {"kind": "generated-case", "case": x["exp"]}, "in_scope": True} for x in d]
+    n = len(exp)
+    cov = {"evaluations": n, "distinct_nontrivial": n, "programs": 1, "states": r["distinct"], "transitions": r["generated"], "traces_validated_against_impl": n, "exhaustive": True,
+           "samples": [{"method": e["sig"], "mock": e["mock"], "call_arg": e["call_arg"], "expected": e["exp"]} for e in list(exp.values())[40:42]],
+           "rule": "TLC enumerates receiver kind (&self, &mut self, by value, Rc, Arc, Pin) x default body x registered real function x strict/partial x {unmentioned, mentioned-but-unmatched, matched}; every cell is a generated trait, built and run; the outcome must be the clause's value, the default body's, the real function's (called once) or a panic of the stated kind naming the method"}
+    return finish(pid, tier, LEVEL_MC, cov, ["one method of one signature per cell; the default body and the real function return distinct constants"], t0, divs)
+
+
 def run_unmock_shapes(pid, tier, t0):
     import gen, gen_c16, random
     fam = "Q" if tier == "quick" else "T"
@@ -1123,6 +1143,9 @@ def run_property(pid, tier, t0):
     if pid == "C19":
         return composite(pid, tier, t0, [("call / argument / pattern rendering per error kind (Shapes.tla Render)", lambda: run_render(pid, tier, t0)),
                                          ("mismatch positions of guard-free single-alternative patterns (Matching.tla MismatchPositions)", lambda: run_matching(pid, tier, t0, "C19"))])
+    if pid == "C07":
+        return composite(pid, tier, t0, [("decision table on the universe (Mock.tla FallbackTable, replay)", mock),
+                                         ("decision table per receiver kind of the generated impl (Shapes.tla FallbackExpected, generated traits)", lambda: run_fallback_shapes(pid, tier, t0))])
     if pid in mockplans.PLANS and pid != "C11":
         return mock()
     if pid in CONC_PROGS:
